@@ -1,7 +1,7 @@
 (** C07 — non-vacuity: concrete histories of the (symbolically instantiated) model in which the
     hypotheses of the theorems are met and the conclusions are not trivial. *)
 From Coq Require Import List ZArith Bool.
-From Paloma Require Import Base.Corr Evm.Attest Evm.AttestSym Corr.C07.
+From Paloma Require Import Base.Corr Cons.Quorum Evm.Attest Evm.AttestSym Evm.AttestEvidence Corr.C07.
 Import ListNotations.
 Open Scope Z_scope.
 
@@ -12,9 +12,18 @@ Definition vs1 : valset := ([11; 12], [70; 30], 4).
 Definition d1 := expected_calldata (mk_body b1) 1 0 vs1 [(11, 21)].
 Definition d2 := expected_calldata (mk_body b1) 2 0 vs1 [(11, 23)].
 
+(** the current snapshot: validators 1, 2, 3 with 50, 30, 20 of 100 shares *)
+Definition sn3 : snapshot := mk_snapshot [(1, 50); (2, 30); (3, 20)] 100.
+(** receipts [type; post state; status; cumulative gas; bloom; logs] *)
+Definition rc_ok : list Z := [2; 0; 1; 21000; 7; 8].
+Definition rc_failed : list Z := [2; 0; 0; 21000; 7; 8].
+(** everybody reports the transaction with this receipt status *)
+Definition all_report (id h : Z) (d : calldata) (st : Z) : cop := XAddEv id [1; 2; 3] (XPTx h d (Some [2; 0; st; 21000; 7; 8])).
+
 Definition play (l : list cop) : cstate :=
-  fold_left (fun s o => fst (apply_cop s o)) l (init body sigd valset Z tx wstate ([(4, vs1)], true) 1).
-Definition proj (s : cstate) :=
+  fold_left (fun s o => fst (apply_cop sn3 s o)) l (c_init [(4, vs1)] 1).
+Definition proj (rs : cstate) :=
+  let s := abs rs in
   (map (fun e => (m_id _ _ _ (e_msg _ _ _ _ e), fst (e_tx _ _ _ _ e), e_prefix _ _ _ _ e)) (effects _ _ _ _ _ _ s),
    map (m_id _ _ _) (queue _ _ _ _ _ _ s), processed _ _ _ _ _ _ s).
 
@@ -23,37 +32,91 @@ Definition proj (s : cstate) :=
     refused, nothing changes.  Then its own transaction: accepted.  Two effects, distinct
     transactions, distinct messages. *)
 Definition h_good : list cop :=
-  [XEnqueue b1; XValset 1 4; XSign 1 (11, 21); XSign 1 (12, 22); XEvidence 1 (XTx 500 d1 1); XAttest 1 (Some []);
-   XEnqueue b1; XValset 2 4; XSign 2 (11, 23); XEvidence 2 (XTx 500 d1 1); XAttest 2 (Some []);
-   XEvidence 2 (XTx 501 d2 1); XAttest 2 (Some [])].
+  [XEnqueue b1; XValset 1 4; XSign 1 (11, 21); XSign 1 (12, 22); all_report 1 500 d1 1; XAttest 1 (Some []);
+   XEnqueue b1; XValset 2 4; XSign 2 (11, 23); all_report 2 500 d1 1; XAttest 2 (Some []);
+   all_report 2 501 d2 1; XAttest 2 (Some [])].
 
 Example accepted_once_each : proj (play h_good) = ([(1, 500, 1%nat); (2, 501, 1%nat)], [], [501; 500]).
 Proof. vm_compute. reflexivity. Qed.
 
 Example reused_tx_refused :
-  snd (apply_cop (play (firstn 10 h_good)) (XAttest 2 (Some []))) = 3 (* already processed *) /\
-  proj (fst (apply_cop (play (firstn 10 h_good)) (XAttest 2 (Some [])))) = ([(1, 500, 1%nat)], [2], [500]).
+  snd (apply_cop sn3 (play (firstn 10 h_good)) (XAttest 2 (Some []))) = 3 (* already processed *) /\
+  proj (fst (apply_cop sn3 (play (firstn 10 h_good)) (XAttest 2 (Some [])))) = ([(1, 500, 1%nat)], [2], [500]).
 Proof. vm_compute. split; reflexivity. Qed.
 
 (** a failed receipt, a wrong message id in the call, a call signed by nobody: no effect; the
     message is dropped and the transaction marked (bookkeeping only) *)
 Example failed_receipt_no_effect :
-  proj (play [XEnqueue b1; XValset 1 4; XSign 1 (11, 21); XEvidence 1 (XTx 500 d1 0); XAttest 1 (Some [])]) = ([], [], [500]).
+  proj (play [XEnqueue b1; XValset 1 4; XSign 1 (11, 21); all_report 1 500 d1 0; XAttest 1 (Some [])]) = ([], [], [500]).
 Proof. vm_compute. reflexivity. Qed.
 
 Example other_message_id_no_effect :
-  proj (play [XEnqueue b1; XValset 1 4; XSign 1 (11, 21); XEvidence 1 (XTx 500 d2 1); XAttest 1 (Some [])]) = ([], [], [500]).
+  proj (play [XEnqueue b1; XValset 1 4; XSign 1 (11, 21); all_report 1 500 d2 1; XAttest 1 (Some [])]) = ([], [], [500]).
 Proof. vm_compute. reflexivity. Qed.
 
 Example no_signature_no_effect :
   proj (play [XEnqueue b1; XValset 1 4;
-              XEvidence 1 (XTx 500 (expected_calldata (mk_body b1) 1 0 vs1 []) 1); XAttest 1 (Some [])]) = ([], [], [500]).
+              all_report 1 500 (expected_calldata (mk_body b1) 1 0 vs1 []) 1; XAttest 1 (Some [])]) = ([], [], [500]).
 Proof. vm_compute. reflexivity. Qed.
 
 (** the end-blocker loop goes on after a failing message: message 1 fails its receipt (flushed,
     error logged), message 2 is still attested in the same block and accepted *)
 Example endblock_continues_after_an_error :
-  let s := play [XEnqueue b1; XValset 1 4; XSign 1 (11, 21); XEvidence 1 (XTx 500 d1 0);
-                 XEnqueue b1; XValset 2 4; XSign 2 (11, 23); XEvidence 2 (XTx 501 d2 1); XEndBlock []] in
+  let s := play [XEnqueue b1; XValset 1 4; XSign 1 (11, 21); all_report 1 500 d1 0;
+                 XEnqueue b1; XValset 2 4; XSign 2 (11, 23); all_report 2 501 d2 1; XEndBlock []] in
   proj s = ([(2, 501, 1%nat)], [], [501; 500]).
 Proof. vm_compute. reflexivity. Qed.
+
+(* ---------- second round: the reports decide, not the first reporter ---------- *)
+
+(** Validator 3 (20 of 100 shares) reports the transaction with a SUCCESSFUL receipt first; then
+    validators 1 and 2 (80 shares) report the same transaction with the FAILED receipt.  The two
+    receipts serialise differently, the reports fall into two groups, the failed receipt wins:
+    ErrEthTxFailed, no success effect, message dropped, transaction marked. *)
+Definition h_dissent : list cop :=
+  [XEnqueue b1; XValset 1 4; XSign 1 (11, 21);
+   XAddEv 1 [3] (XPTx 500 d1 (Some rc_ok)); XAddEv 1 [1; 2] (XPTx 500 d1 (Some rc_failed))].
+
+Example dissenting_success_report_first_loses :
+  snd (apply_cop sn3 (play h_dissent) (XAttest 1 (Some []))) = 2 (* ErrEthTxFailed *) /\
+  proj (fst (apply_cop sn3 (play h_dissent) (XAttest 1 (Some [])))) = ([], [], [500]).
+Proof. vm_compute. split; reflexivity. Qed.
+
+(** the other way round: the 80 shares report success, the dissenter's failed receipt comes first: accepted *)
+Example two_thirds_success_reports_win :
+  proj (play [XEnqueue b1; XValset 1 4; XSign 1 (11, 21);
+              XAddEv 1 [3] (XPTx 500 d1 (Some rc_failed)); XAddEv 1 [1; 2] (XPTx 500 d1 (Some rc_ok)); XAttest 1 (Some [])])
+  = ([(1, 500, 1%nat)], [], [500]).
+Proof. vm_compute. reflexivity. Qed.
+
+(** no receipt is agreed on (50 : 50): nothing is handed to the attester, the message stays *)
+Example no_receipt_agreed_nothing_happens :
+  let h := [XEnqueue b1; XValset 1 4; XSign 1 (11, 21);
+            XAddEv 1 [1] (XPTx 500 d1 (Some rc_ok)); XAddEv 1 [2; 3] (XPTx 500 d1 (Some rc_failed))] in
+  snd (apply_cop sn3 (play h) (XAttest 1 (Some []))) = 0 /\
+  proj (fst (apply_cop sn3 (play h) (XAttest 1 (Some [])))) = ([], [1], []).
+Proof. vm_compute. split; reflexivity. Qed.
+
+(** a validator that changes its mind is counted with its latest report, at its old position *)
+Example latest_report_counts :
+  proj (play [XEnqueue b1; XValset 1 4; XSign 1 (11, 21);
+              XAddEv 1 [1; 2; 3] (XPTx 500 d1 (Some rc_failed)); XAddEv 1 [1; 2] (XPTx 500 d1 (Some rc_ok)); XAttest 1 (Some [])])
+  = ([(1, 500, 1%nat)], [], [500]).
+Proof. vm_compute. reflexivity. Qed.
+
+(** The 2/3 clause NEEDS the receipt status among the hashed bytes.  With the bytes
+    rlp [PostState; CumulativeGasUsed; Bloom; Logs] of the receipt (PostState is empty for every
+    post-Byzantium receipt, so the status is not covered) the same reports form ONE group whose
+    representative is the first report: the 20-share validator's "success" is handed to the
+    attester although 80 shares reported the failed receipt. *)
+Definition cov_without_status : proof tx -> payload tx :=
+  covered_with tx true (fun r => [r_post r; r_gas r; r_bloom r; r_logs r]).
+Definition reports_dissent : reports tx :=
+  [(3, PTx (500, d1) (Some (receipt_of rc_ok))); (1, PTx (500, d1) (Some (receipt_of rc_failed)));
+   (2, PTx (500, d1) (Some (receipt_of rc_failed)))].
+
+Example status_out_of_the_hash_lets_a_minority_report_win :
+  elect_with tx ckeqb chash c_enc cov_without_status c_ord sn3 reports_dissent = Some (WTx (500, d1) (Some 1)) /\
+  elect tx ckeqb chash c_enc c_ord sn3 reports_dissent = Some (WTx (500, d1) (Some 0)) /\
+  power sn3 (map fst (filter (fun vp => match snd vp with PTx _ (Some r) => r_status r =? 1 | _ => false end) reports_dissent)) = 20.
+Proof. vm_compute. repeat split; reflexivity. Qed.
